@@ -199,6 +199,7 @@ def extract_fn(repo, spec):
     if len(ann) != len(loops):
         raise vf.Undecided("%s: %d loops in the source, %d loop specifications" % (spec["name"], len(loops), len(ann)))
     inserts = []  # (position in text, inserted string)
+    replaces = []  # (start, end, new text): closure parameter patterns only
     for (s_, lbo), a in zip(loops, ann):
         inserts.append((lbo, "\n" + a.rstrip("\n").lstrip("\n") + "\n            "))
     cann = spec.get("closures")
@@ -209,13 +210,29 @@ def extract_fn(repo, spec):
         if len(cann) != len(clos):
             raise vf.Undecided("%s: %d closures in the source, %d closure specifications" % (spec["name"], len(clos), len(cann)))
         for (pe, cb, ce, braced), a in zip(clos, cann):
+            bind = None
+            if isinstance(a, dict):
+                bind, a = a.get("bind"), a.get("spec", "")
             a = " ".join(a.split())
-            if not a:
+            if not a and not bind:
                 continue
+            let = ""
+            if bind:
+                # closure parameter *pattern* -> variable + `let PATTERN = variable;` as the first
+                # statement of the body (Rust's own definition of a pattern parameter; this Verus
+                # accepts only variables as closure parameters)
+                ps = sc.code.rfind("|", bo, pe - 1)
+                pat = text[ps + 1:pe - 1]
+                if "|" in pat or not pat.strip():
+                    raise vf.Undecided("%s: cannot isolate the parameter pattern of a closure" % spec["name"])
+                replaces.append((ps + 1, pe - 1, bind))
+                let = "let %s = %s; " % (pat.strip(), bind)
             if braced:
                 inserts.append((pe, " " + a + " "))
+                if let:
+                    inserts.append((cb + 1, " " + let))
             else:
-                inserts.append((cb, a + " { "))
+                inserts.append((cb, a + " { " + let))
                 inserts.append((ce, " }"))
     hints = spec.get("hints", [])
     for h in hints:
@@ -224,30 +241,29 @@ def extract_fn(repo, spec):
         if len(hm) != 1:
             raise vf.Undecided("%s: hint anchor %r matched %d times" % (spec["name"], h["after"], len(hm)))
         inserts.append((bo + hm[0].end(), "\n" + h["text"].strip("\n") + "\n"))
-    inserts.sort(key=lambda x: x[0])
-    pieces, cur = [], bo
-    for pos, ins in inserts:
-        pieces.append(text[cur:pos])
-        pieces.append(ins)
-        cur = pos
+    # edits: ("ins", pos, text) / ("rep", start, end, text); built left to right, then undone again as a check
+    edits = [("ins", pos, pos, ins) for pos, ins in inserts] + [("rep", a_, b_, t_) for a_, b_, t_ in replaces]
+    edits.sort(key=lambda e: (e[1], 0 if e[0] == "rep" else 1))
+    pieces, cur, marks = [], bo, []
+    outlen = 0
+    for kind, a_, b_, t_ in edits:
+        seg = text[cur:a_]
+        pieces.append(seg)
+        outlen += len(seg)
+        marks.append((outlen, len(t_), text[a_:b_]))
+        pieces.append(t_)
+        outlen += len(t_)
+        cur = b_
     pieces.append(text[cur:bc + 1])
     body2 = "".join(pieces)
-    # check: deleting exactly the inserted strings gives back the original body
-    chk, off = body2, 0
-    for pos, ins in inserts:
-        at = pos - bo + off
-        if chk[at:at + len(ins)] != ins:
-            raise vf.Undecided("%s: body identity check failed" % spec["name"])
-        off += len(ins)
-    chk2, off = [], 0
-    cur = 0
-    for pos, ins in inserts:
-        at = pos - bo + off
-        chk2.append(body2[cur:at])
-        cur = at + len(ins)
-        off += len(ins)
-    chk2.append(body2[cur:])
-    if "".join(chk2) != body:
+    # check: undoing exactly these edits gives back the original body, byte for byte
+    back, cur = [], 0
+    for at, ln, orig in marks:
+        back.append(body2[cur:at])
+        back.append(orig)
+        cur = at + ln
+    back.append(body2[cur:])
+    if "".join(back) != body:
         raise vf.Undecided("%s: body identity check failed" % spec["name"])
     line_in_repo = text.count("\n", 0, start) + 1
     return {"name": spec["name"], "header": inherent_header(header), "orig_header": re.sub(r"\s+", " ", header),
